@@ -520,7 +520,7 @@ func init() {
 		Level: "exploration",
 		Rule: "cases (direct): every sequence of member events over the alphabet {join,leave,failed,update,reap} x member sets (quick: {a},{b} length<=5 and {a},{b},{a,b} length<=4; thorough: length<=6 / <=5 and {a},{b},{c} length<=4) x every subset of positions after which Flush is called, plus one final Flush, on the real memberEventCoalescer; every event carries a distinct member stamp; each flush output compared as a multiset. " +
 			"cases (loop): every script of length<=5 (thorough 6) over {5 member events, advance 1s, advance 2s} followed by shutdown, through the real coalesceLoop under the controlled scheduler with virtual time (coalesce period 4s, quiescent period 3s). " +
-			"All cases are distinct by construction; non-trivial (direct) = within one quantum an event overwrote a pending event of the same member, or an event was suppressed, or a flush happened while a previously reported member had no new event; non-trivial (loop) = at least one timer-driven flush",
+			"All cases are distinct by construction; non-trivial (direct) = within one quantum an event overwrote a pending event of the same member, or an event was suppressed, or a flush happened while a previously reported member had no new event; non-trivial (loop) = at least one timer-driven flush. slow-application/member-events (shared with C16): an application that does not read its channel for a while, under the controlled scheduler",
 		Assumptions: []string{
 			"the coalescer is constructed as serf.Create constructs it (two empty maps); Handle/Coalesce/Flush are called from one thread, as coalesceLoop does",
 			"the order of reports inside one flush and their grouping into MemberEvent values is unspecified (Flush iterates Go maps); outputs are compared as multisets of (kind, member) pairs",
@@ -532,6 +532,8 @@ func init() {
 
 func c17run(ctx *vc.Ctx) {
 	defer c17gcSetup()()
+	// the real coalesceLoop in front of an application that stops reading for a while (c16.go)
+	c16slowApp(ctx, 1, false)
 	if ctx.Replay != nil {
 		var r c17replay
 		if json.Unmarshal(ctx.Replay, &r) != nil {
